@@ -263,7 +263,7 @@ func run(r *Rng, tier string, n int) {
 		append(hdr(65535, 65535), 1, 'a', 0, 0, 1, 0, 1),         // lying counts
 		append(hdr(0, 65535), 0, 0, 1, 0, 1, 0, 0, 0, 0, 0, 0),   // many root A records without rdata
 	}
-	for _, hops := range []int{1, 100, 125, 126, 127, 128, 200, 1000} {
+	for _, hops := range []int{1, 100, 125, 126, 127, 128, 129, 200, 1000} {
 		// record 1: owner root, unknown type, RDATA = name "x" followed by a chain of pointers, each
 		// pointing BACKWARDS at the previous one; record 2: owner = pointer at the end of the chain
 		rd := []byte{1, 'x', 0}
@@ -293,7 +293,7 @@ func run(r *Rng, tier string, n int) {
 			}
 			return "ok"
 		})
-		if hops > 126 && res == "ok" {
+		if hops > 127 && res == "ok" {
 			Viol("C02/pointer-hops-unbounded", "a chain of "+Itoa(hops)+" compression pointers was followed to the end", map[string]string{"wire": Hx(g)})
 		}
 	}
